@@ -183,6 +183,33 @@ Proof.
     + exists O; cbn; now rewrite app_nil_r.
 Qed.
 
+(** the clock only moves forward, and every byte taken had arrived by the time the loop
+    returned *)
+Lemma read_loop_times : forall pend i start now0 input,
+  let '(_, rest, t, _) := read_loop cost more timeout pend i start now0 input in
+  now0 <= t /\ (length rest <= length pend)%nat /\
+  Forall (fun a => fst a <= t) (firstn (length pend - length rest) pend).
+Proof.
+  induction pend as [|[t b] rest0 IH]; intros i start now0 input; cbn [read_loop].
+  - destruct (now0 - start <? timeout) eqn:El; cbn [andb].
+    + apply Z.ltb_lt in El. pose proof (cost_bounded i).
+      destruct (more input); cbn; repeat split; auto; lia.
+    + cbn; repeat split; auto; lia.
+  - destruct (now0 - start <? timeout) eqn:El; cbn [andb].
+    2:{ rewrite Nat.sub_diag. cbn. repeat split; auto; lia. }
+    apply Z.ltb_lt in El. pose proof (cost_bounded i).
+    destruct (more input).
+    2:{ rewrite Nat.sub_diag. cbn. repeat split; auto; lia. }
+    destruct (t <? start + timeout) eqn:Et.
+    2:{ rewrite Nat.sub_diag. cbn [firstn]. repeat split; auto; lia. }
+    specialize (IH (S i) start (Z.max now0 t + cost i) (input ++ [b])).
+    destruct (read_loop cost more timeout rest0 (S i) start (Z.max now0 t + cost i) (input ++ [b]))
+      as [[[inp r] t'] i'].
+    destruct IH as (Ht & Hl & HF). split; [lia|]. split; [cbn [length]; lia|].
+    cbn [length]. replace (S (length rest0) - length r)%nat with (S (length rest0 - length r)) by lia.
+    cbn [firstn]. constructor; [cbn; lia|exact HF].
+Qed.
+
 (** ** the drain *)
 
 Lemma take_while_all {A} (p : A -> bool) l : Forall (fun x => p x = true) l -> take_while p l = l.
@@ -200,8 +227,10 @@ Proof. induction l; cbn; [lia|]. destruct (p a); cbn; lia. Qed.
 Lemma drain_loop_all : forall fuel pend i now0 input,
   (length pend < fuel)%nat ->
   Forall (fun a => fst a <= now0) pend ->
-  exists t i', drain_loop cost fuel pend i now0 input = (input ++ map snd pend, [], t, i') /\ now0 <= t.
+  exists t i', drain_loop cost fuel pend i now0 input = (input ++ map snd pend, [], t, i') /\
+               now0 <= t <= now0 + c * (Z.of_nat (length pend) + 1).
 Proof.
+  pose proof c_nonneg as Hc.
   induction fuel as [|f IH]; intros pend i now0 input Hl HF; [lia|].
   cbn [drain_loop]. unfold arrived.
   rewrite take_while_all by (eapply Forall_impl; [|exact HF]; cbn; intros; now apply Z.leb_le).
@@ -217,13 +246,16 @@ Proof.
       assert (In x (a :: rest)).
       { rewrite <- (firstn_skipn k (a :: rest)). apply in_or_app; now right. }
       specialize (HF x H). lia.
-    + exists t, i'. split; [|lia].
-      etransitivity; [exact E|]. rewrite <- app_assoc, <- map_app, firstn_skipn. reflexivity.
+    + exists t, i'. split.
+      * etransitivity; [exact E|]. rewrite <- app_assoc, <- map_app, firstn_skipn. reflexivity.
+      * rewrite skipn_length in Ht. cbn [length] in Ht. fold n in Ht.
+        assert (Z.of_nat (n - k) <= Z.of_nat n - 1) by lia. fold n. nia.
 Qed.
 
 Lemma drain_all : forall pend i now0,
   Forall (fun a => fst a <= now0) pend ->
-  exists t i', drain cost pend i now0 = (map snd pend, [], t, i') /\ now0 <= t.
+  exists t i', drain cost pend i now0 = (map snd pend, [], t, i') /\
+               now0 <= t <= now0 + c * (Z.of_nat (length pend) + 1).
 Proof.
   intros. unfold drain. destruct (drain_loop_all (S (length pend)) pend i now0 [])
     as (t & i' & E & Ht); auto. exists t, i'. split; auto.
